@@ -177,7 +177,13 @@ fn one<C: Suite>(ctx: &mut Ctx, g: u64, ename: &str, m: &RS, _rep: usize) {
         return;
     }
     // perturbations
-    let other_proof = pk.encrypt_key_el_gamal_with_proof(&msk).expect("second proof");
+    let other_proof = match pk.encrypt_key_el_gamal_with_proof(&msk) {
+        Ok(p) => p,
+        Err(e) => {
+            ctx.violation(&format!("C14/prove-failed/{n}"), json!({"err":e.to_string(),"what":"second proof for the same inputs"}));
+            return;
+        }
+    };
     let one = <Sc<C> as Field>::ONE;
     let gpk = <PkPt<C> as Group>::generator();
     let mut variants: Vec<(&str, ElGamalProof<C>)> = Vec::new();
@@ -333,7 +339,13 @@ fn sums<C: Suite>(ctx: &mut Ctx, g: u64, k: usize, rep: usize) {
     }
     let total = ms.iter().fold(RS::ZERO, |a, b| a + *b);
     let want = hm::<C>(&total);
-    let cts: Vec<ElGamalCiphertext<C>> = ms.iter().map(|m| pk.encrypt_key_el_gamal(&sk_from_rs::<C>(m)).expect("encrypt")).collect();
+    let cts: Vec<ElGamalCiphertext<C>> = match ms.iter().map(|m| pk.encrypt_key_el_gamal(&sk_from_rs::<C>(m))).collect::<Result<Vec<_>, _>>() {
+        Ok(v) => v,
+        Err(e) => {
+            ctx.violation(&format!("C14/encrypt-failed/{n}"), json!({"err":e.to_string(),"plaintexts_be":ms.iter().map(|m| hex::encode(m.to_be_bytes())).collect::<Vec<_>>()}));
+            return;
+        }
+    };
     let d = |what: &str| json!({"what":what,"suite":n,"k":k,"plaintext_pattern":pattern,"plaintexts_be":ms.iter().map(|m| hex::encode(m.to_be_bytes())).collect::<Vec<_>>(),"sk_be":hex::encode(key.to_be_bytes())});
     // six ways of adding
     let mut results: Vec<(&str, ElGamalCiphertext<C>)> = Vec::new();
@@ -363,12 +375,15 @@ fn shares<C: Suite>(ctx: &mut Ctx, g: u64, t: usize, nn: usize) {
     let pk = sk.public_key();
     let m = gen::random_scalar(&mut rng);
     let want = hm::<C>(&m);
-    let ct = pk.encrypt_key_el_gamal(&sk_from_rs::<C>(&m)).expect("encrypt");
+    let Ok(ct) = pk.encrypt_key_el_gamal(&sk_from_rs::<C>(&m)) else {
+        ctx.violation(&format!("C14/encrypt-failed/{n}"), json!({"m":hex::encode(m.to_be_bytes())}));
+        return;
+    };
     let sh = sk.split(t, nn).expect("split");
-    let ds: Vec<ElGamalDecryptionShare<C>> = sh
-        .iter()
-        .map(|s| ElGamalDecryptionShare(<C as BlsSignatureCore>::public_key_share_with_generator(&s.0, ct.c1).expect("share")))
-        .collect();
+    let Ok(ds) = sh.iter().map(|s| <C as BlsSignatureCore>::public_key_share_with_generator(&s.0, ct.c1).map(ElGamalDecryptionShare)).collect::<Result<Vec<ElGamalDecryptionShare<C>>, _>>() else {
+        ctx.violation(&format!("C14/decryption-share-failed/{n}"), json!({"t":t,"n":nn}));
+        return;
+    };
     let mut orders: Vec<Vec<usize>> = Vec::new();
     for sub in gen::subsets(nn) {
         orders.push(sub.clone());
